@@ -62,7 +62,7 @@ def _found(stored_title: str, lookup: str, ns) -> bool:
 TITLES = ["Template:Foo", "Template:Bar"]
 NS = 10
 BODIES = ["one", "two"]
-OPS = ["add0", "add1", "redirect", "get", "exists", "body", "resolve", "add0s", "redirect_bare", "redirect_lc"]
+OPS = ["add0", "add1", "redirect", "get", "exists", "body", "resolve", "add0s", "redirect_bare", "redirect_lc", "main_lookup"]
 # how the redirect target is written in the three redirect operations (the page it names is TITLES[1 - t] in all of them)
 TARGET_SPELLING = {"redirect": lambda o: o, "redirect_bare": lambda o: o.split(":", 1)[1], "redirect_lc": lambda o: "template:" + o.split(":", 1)[1][0].lower() + o.split(":", 1)[1][1:]}
 
@@ -79,6 +79,9 @@ def apply_real(op: int, t: int):
     if o == "add0s":  # same body as add0, another content model
         ctx.add_page(title, NS, BODIES[0], model="Scribunto")
         return None
+    if o == "main_lookup":  # the same spelling looked up in the MAIN namespace: no such page was ever added there
+        p = ctx.get_page(title, 0)
+        return (None if p is None else (p.title, p.namespace_id), ctx.page_exists(title))
     if o == "get":
         p = ctx.get_page(title, NS)
         return None if p is None else (p.title, p.body, p.redirect_to, p.model)
@@ -105,6 +108,8 @@ def apply_model(m: dict, op: int, t: int):
         m[title] = (title, BODIES[0], None, "Scribunto", None)
         return None
     p = m.get(title)
+    if o == "main_lookup":
+        return (None, False)
     if o == "get":
         return None if p is None else p[:4]
     if o == "exists":
@@ -168,7 +173,7 @@ def describe(ops):
     for op, t in ops:
         o = OPS[op]
         title = TITLES[t]
-        out.append({"add0": f"add_page({title!r}, 10, 'one')", "add1": f"add_page({title!r}, 10, 'two')", "redirect": f"add_page({title!r}, 10, None, redirect_to={TITLES[1 - t]!r})", "redirect_bare": f"add_page({title!r}, 10, None, redirect_to={TARGET_SPELLING['redirect_bare'](TITLES[1 - t])!r})", "redirect_lc": f"add_page({title!r}, 10, None, redirect_to={TARGET_SPELLING['redirect_lc'](TITLES[1 - t])!r})", "get": f"get_page({title!r}, 10)", "exists": f"page_exists({title!r}, 10)", "body": f"get_page({title!r}, 10).body", "resolve": f"get_page_resolve_redirect({title!r}, 10)", "add0s": f"add_page({title!r}, 10, 'one', model='Scribunto')"}[o])
+        out.append({"add0": f"add_page({title!r}, 10, 'one')", "add1": f"add_page({title!r}, 10, 'two')", "redirect": f"add_page({title!r}, 10, None, redirect_to={TITLES[1 - t]!r})", "redirect_bare": f"add_page({title!r}, 10, None, redirect_to={TARGET_SPELLING['redirect_bare'](TITLES[1 - t])!r})", "redirect_lc": f"add_page({title!r}, 10, None, redirect_to={TARGET_SPELLING['redirect_lc'](TITLES[1 - t])!r})", "main_lookup": f"get_page({title!r}, 0) / page_exists({title!r})", "get": f"get_page({title!r}, 10)", "exists": f"page_exists({title!r}, 10)", "body": f"get_page({title!r}, 10).body", "resolve": f"get_page_resolve_redirect({title!r}, 10)", "add0s": f"add_page({title!r}, 10, 'one', model='Scribunto')"}[o])
     return "; ".join(out)
 
 
